@@ -336,6 +336,21 @@ func runOnce(files []dump.File, ord []int, x *explore.X) (summary, listProblem s
 		lastYangentry = ""
 		if viaYangentry != "" {
 			lastYangentry = yangentrySummary(fs)
+			// ... and (first load order again) the same sources with the parse options switched on
+			for _, f := range fs {
+				if strings.Contains(f.Text, "deviat") || strings.Contains(f.Text, "include") {
+					ro := dump.Run(fs, dump.Options{Positions: true}, func(ms *yang.Modules) {
+						ms.ParseOptions.DeviateOptions.IgnoreDeviateNotSupported = true
+						ms.ParseOptions.StoreUses = true
+						ms.ParseOptions.IgnoreSubmoduleCircularDependencies = true
+					})
+					lastYangentry += "\nwith the parse options:\n" + ro.Summary()
+					if lp := errorListOK(ro.ProcErrs); lp != "" && listProblem == "" {
+						listProblem = lp
+					}
+					break
+				}
+			}
 		}
 	})
 	if pan {
@@ -439,7 +454,7 @@ func run(c *core.Ctx) {
 			}
 		}
 		c.Outcome("FAIL:yangentry-outcomes")
-		c.Fail(caseNo, s.classes, "yangentry-outcome-depends-on-map-order", Input{Scenario: s.name, Files: s.files, A: youtcomes[yfirst], B: youtcomes[other], Kind: "yangentry"}, yfirst, other)
+		c.Fail(caseNo, s.classes, "second-route-outcome-depends-on-map-order", Input{Scenario: s.name, Files: s.files, A: youtcomes[yfirst], B: youtcomes[other], Kind: "yangentry"}, yfirst, other)
 	}
 	if len(outcomes) > 1 {
 		var keys []string
@@ -591,7 +606,7 @@ func replay(tier string, raw json.RawMessage) (bool, string, string) {
 	viaYangentry = ""
 	if in.Kind == "yangentry" {
 		if ya != yb {
-			return true, "yangentry-outcome-depends-on-map-order", fmt.Sprintf("execution A (map choices %v):\n%s\nexecution B (map choices %v):\n%s", in.A.Choices, ya, in.B.Choices, yb)
+			return true, "second-route-outcome-depends-on-map-order", fmt.Sprintf("execution A (map choices %v):\n%s\nexecution B (map choices %v):\n%s", in.A.Choices, ya, in.B.Choices, yb)
 		}
 		return false, "", "both executions agree"
 	}
